@@ -106,6 +106,10 @@ func noteCid(kind string, c cid.Cid) {
 }
 
 func create(tb ev.TB, st *fakeipfs.Store, p c08Prog, io iface.IO) iface.IPFSLogEntry {
+	return createWith(tb, st, p, io, nil)
+}
+
+func createWith(tb ev.TB, st *fakeipfs.Store, p c08Prog, io iface.IO, opts *iface.CreateEntryOptions) iface.IPFSLogEntry {
 	id := world.Identity(p.Writer)
 	cl := append([]byte(nil), p.ClockID...) // fresh slices on every build
 	if len(cl) == 0 {
@@ -117,7 +121,7 @@ func create(tb ev.TB, st *fakeipfs.Store, p c08Prog, io iface.IO) iface.IPFSLogE
 		Next:    pool(p.Next),
 		Refs:    pool(p.Refs),
 		Clock:   entry.NewLamportClock(cl, p.Time),
-	}, nil, io)
+	}, opts, io)
 	if err != nil {
 		tb.Fatalf("harness: CreateEntryWithIO: %v", err)
 	}
